@@ -794,7 +794,7 @@ Definition aligned_unchecked (o : op) : bool :=
   | OJoin _ _ _ _ | OAdd _ _ _ | OApply _ _ _ | ODescribe _ | OResample _ _ _ _ | OGroupAgg _ _ _ _
   | OFromCSV _ | OCsvRoundTrip _ | OGroupby _ _ | OToCSV _ | ORow _ _ | OColumnNames _ | ONrows _
   | ONcols _ | OAgg _ _ | OString _ | OSelect _ _ | OColAt _ _ _ | OSeries _ _ _
-  | OPlot _ _ _ _ _ _ | OGroupbyOther _ _ => true
+  | OPlot _ _ _ _ _ _ | OGroupbyOther _ _ | OIoFail _ _ => true
   | _ => false
   end.
 
@@ -822,7 +822,7 @@ Proof.
   intros Hp Hok.
   destruct o as [i n|i n|i a b|i keep|i labels cols|i rws cls|i names|i by_ asc|i n
                 |i has_opt subset keep|k i j key|i j fill|i fn axis|i|i tcol freq agg|i gk a cols|b|i
-                |i gk|i|i n|i|i|i|i k|i|i nm|i nm n|i nm n|bar i x y pk rk|i acc|i r|i n|i v|i|i cn ty|i cn layout|i a b|i n d|i n|i cn n v
+                |i gk|i|i n|i|i|i|i k|i|i nm|i nm n|i nm n|bar i x y pk rk|i acc|i rep|i r|i n|i v|i|i cn ty|i cn layout|i a b|i n d|i n|i cn n v
                 |i subset keep];
     try (apply aligned_trivial; reflexivity); cbn [step].
   - (* Head *) with_src p i Hp f Hf Hwf Hr.
@@ -1125,7 +1125,7 @@ Proof.
   intros Hp Hside.
   destruct o as [i n|i n|i a b|i keep|i labels cols|i rws cls|i names|i by_ asc|i n
                 |i has_opt subset keep|k i j key|i j fill|i fn axis|i|i tcol freq agg|i gk a cols|b|i
-                |i gk|i|i n|i|i|i|i k|i|i nm|i nm n|i nm n|bar i x y pk rk|i acc|i r|i n|i v|i|i cn ty|i cn layout|i a b|i n d|i n|i cn n v
+                |i gk|i|i n|i|i|i|i k|i|i nm|i nm n|i nm n|bar i x y pk rk|i acc|i rep|i r|i n|i v|i|i cn ty|i cn layout|i a b|i n d|i n|i cn n v
                 |i subset keep];
     try (rewrite out_same_refl, pool_same_refl; reflexivity).
   cbn [step side_okb] in *. unfold check_sort, with_frame. cbv zeta.
@@ -1158,7 +1158,7 @@ Proof.
   intros Hp Hside Es.
   destruct o as [i n|i n|i a b|i keep|i labels cols|i rws cls|i names|i by_ asc|i n
                 |i has_opt subset keep|k i j key|i j fill|i fn axis|i|i tcol freq agg|i gk a cols|b|i
-                |i gk|i|i n|i|i|i|i k|i|i nm|i nm n|i nm n|bar i x y pk rk|i acc|i r|i n|i v|i|i cn ty|i cn layout|i a b|i n d|i n|i cn n v
+                |i gk|i|i n|i|i|i|i k|i|i nm|i nm n|i nm n|bar i x y pk rk|i acc|i rep|i r|i n|i v|i|i cn ty|i cn layout|i a b|i n d|i n|i cn n v
                 |i subset keep]; try reflexivity.
   - (* Shift *) cbn [step side_okb op_source] in *. unfold with_frame in Es.
     destruct (nth_opt p i) as [f|] eqn:Hf; cbn [derive] in Es; injection Es as <- <-; [|reflexivity].
@@ -1177,6 +1177,21 @@ Proof.
     + rewrite E in Hside. now rewrite Hside.
 Qed.
 
+(* a frame that did not change at all still consists of its own rows: code 13 follows from code 20 *)
+Lemma others_same_aligned : forall pre post i t, others_same pre post i t = true -> others_aligned pre post i t = true.
+Proof.
+  induction pre as [|a pre IH]; intros post i t H; [reflexivity|].
+  destruct post as [|b post]; [reflexivity|].
+  cbn [others_same] in H. cbn [others_aligned].
+  apply andb_prop in H. destruct H as [H1 H2]. rewrite (IH _ _ _ H2), andb_true_r.
+  unfold still_own_rows.
+  destruct t as [t|].
+  - destruct (Nat.eqb t i); [reflexivity|]. now rewrite H1.
+  - now rewrite H1.
+Qed.
+Theorem spec_c01_others_model O p o : c01_others_aligned p o (snd (step O p o)) = true.
+Proof. apply others_same_aligned. apply spec_c02_model. Qed.
+
 (* what the model itself would be observed to do *)
 Definition model_obs (O : oracles) (p : pool) (o : op) : stepobs :=
   {| s_op := o; s_out := fst (step O p o); s_delta := full_delta (snd (step O p o));
@@ -1194,11 +1209,12 @@ Proof.
   pose proof (spec_c01_frames_model O p o Hp Hok) as H10.
   pose proof (spec_c01_nrows_model (snd (step O p o))) as H11.
   pose proof (spec_c01_aligned_model O p o Hp Hok) as H12.
+  pose proof (spec_c01_others_model O p o) as H13.
   pose proof (corr_model O p o Hp Hside) as Hcorr.
   unfold check_step. rewrite model_obs_post. cbn [model_obs s_op s_out s_nrows].
   destruct (step O p o) as [mo mp] eqn:Es. cbn [fst snd] in *.
   pose proof (special_model O p o mo mp Hp Hside Es) as Hspecial.
-  rewrite H10, H11, H12, H20, H30, H31, !orb_true_r. cbn [app].
+  rewrite H10, H11, H12, H13, H20, H30, H31, !orb_true_r. cbn [app].
   assert (A : forall (x y : list nat), x = [] -> y = [] -> x ++ y = []) by (intros x y -> ->; reflexivity).
   assert (H32 : (match mo, mo with Err, Ok _ => [32%nat] | _, _ => [] end) = []) by (destruct mo; reflexivity).
   apply A; [exact Hcorr | apply A; [exact Hspecial | exact H32]].
@@ -1344,7 +1360,7 @@ Example check_step_codes :
                             s_delta := [(1%nat, h_bad)]; s_nrows := [3; 2] |} = [1; 2; 12]%nat
   /\ check_step O0 [fa; fb] {| s_op := OFillNa 0 (CI KInt 0); s_out := Ok VNone;
                                 s_delta := [(0%nat, op_fillna fa (CI KInt 0)); (1%nat, op_fillna fb (CI KInt 0))];
-                                s_nrows := [3; 1] |} = [2; 20]%nat
+                                s_nrows := [3; 1] |} = [2; 13; 20]%nat
   /\ check_step O0 [fa] {| s_op := OShift 0 1; s_out := Ok (VFrame fa);
                             s_delta := [(1%nat, fa)]; s_nrows := [3; 3] |} = [1; 2; 41]%nat
   /\ check_step O0 [fa] {| s_op := ODropRow 0 7; s_out := Panic; s_delta := []; s_nrows := [3] |} = [1; 30]%nat
